@@ -136,6 +136,8 @@ class TreeGen:
             # deep spine (up to 40 levels)
             d = rng.randrange(20, 41)
             toks, val = self.value(self.max_depth, [0])
+            if rng.random() < 0.3:
+                toks, val = (["[", "]"], []) if rng.random() < 0.5 else (["{", "}"], {})  # an empty container at the very bottom
             for _ in range(d):
                 if rng.random() < 0.5:
                     toks, val = ["["] + toks + ["]"], [val]
